@@ -15,6 +15,7 @@ ListOf(r) == [k \in Keys |-> IF k \in DOMAIN r THEN EntOf(r[k]) ELSE Nil]
 TraceInit == tid \in 1..Len(Traces) /\ l = 1 /\ Init
 Step(a) ==
     \/ a.op = "Set" /\ Set(a.k, EntOf(a.e))
+    \/ a.op = "SetInPlace" /\ SetInPlace(a.k, EntOf(a.e))
     \/ a.op = "Del" /\ Del(a.k)
     \/ a.op = "Elsewhere" /\ Elsewhere(a.k, EntOf(a.e))
     \/ a.op = "Iter" /\ Iter
@@ -30,14 +31,14 @@ Resync == /\ live' = ListOf(Ev.live) /\ rows' = ListOf(Ev.live)
           /\ committedView' = IF Ev.act.op = "Commit" THEN ListOf(Ev.live) ELSE committedView
           /\ attached' = IF Ev.act.op = "Reopen" THEN FALSE ELSE IF Ev.act.op = "Attach" THEN TRUE ELSE attached
           /\ act' = [op |-> Ev.act.op] /\ steps' = steps + 1 /\ UNCHANGED exported
-          /\ dirty' = (Ev.act.op \in {"Set", "Del"})
+          /\ dirty' = (Ev.act.op \in {"Set", "SetInPlace", "Del"})
 Fail == Have /\ ~ENABLED Match /\ Resync /\ l' = l + 1 /\ UNCHANGED tid /\ Say("DIVERGENCE", Ev.act.op)
 Judge ==
     /\ (Ev.act.op = "Reopen" => (C20_Reopen(committedView, ListOf(Ev.live)) \/ Say("VERDICT", "ReopenLosesOrChanges")))
     /\ (Ev.act.op = "Export" =>
           (C20_Export(ProjL(ListOf(Ev.live)), ProjL(ListOf(Ev.readback))) \/ Say("VERDICT", "FileFormRoundTrip:" \o Ev.act.kind)))
     \* within a session a read returns what was last set for that key
-    /\ (Ev.act.op = "Set" => (Proj(ListOf(Ev.live)[Ev.act.k]) = Proj(EntOf(Ev.act.e)) \/ Say("VERDICT", "ReadAfterSet")))
+    /\ (Ev.act.op \in {"Set", "SetInPlace"} => (Proj(ListOf(Ev.live)[Ev.act.k]) = Proj(EntOf(Ev.act.e)) \/ Say("VERDICT", "ReadAfterSet")))
 TraceNext == (Match \/ Fail) /\ Judge
 TraceSpec == TraceInit /\ [][TraceNext]_allvars
 =============================================================================
